@@ -66,6 +66,9 @@ def _preprocess_dde_syntax(rhs: str) -> str:
         delay = match.group(2).strip()
         if varname in _DDE_EXCLUDE:
             return match.group(0)
+        # x(t-a-b) is x at time t-(a+b): the captured text `a-b` is what follows the first minus sign, so the delay is -(-a-b)
+        if '+' in delay or '-' in delay:
+            delay = f'-(-{delay})'
         return f'past({varname}, {delay})'
     return _DDE_PATTERN.sub(_replace, rhs)
 
